@@ -21,6 +21,8 @@ var c04dTemplates = []string{
 	// members three and four levels deep, used and re-assigned
 	/* 6 */ "local t = { w\x01 = { x\x02 = { y\x03 = 1 } } }\nq = t.w\x01.x\x02.y\x03\nt.w\x01.x\x02.y\x03 = 2\nr = t.w\x01.x\x02\n",
 	/* 7 */ "Se = {}\nSe.w\x01 = { x\x02 = 1, h\x03 = 2 }\nSe.w\x01.x\x02 = Se.w\x01.h\x03\nprint(Se.w\x01.x\x02)\n",
+	// a member written with a bracketed string key beside the dotted form
+	/* 8 */ "local t = {}\nt[\"k\x01\"] = 1\nq = t.k\x01\nt.k\x01 = t[\"k\x01\"] + 1\n",
 }
 
 func VerifRun_C04d() {
@@ -65,7 +67,7 @@ func VerifRun_C04d() {
 					}
 					if x, ok := c04text(src, d.Loc.StartLine, d.Loc.StartColumn, d.Loc.EndColumn); !ok || !chain[x] {
 						verifObserve("bad-definition", name+" -> "+strconv.Itoa(d.Loc.StartLine)+":"+strconv.Itoa(d.Loc.StartColumn)+"-"+strconv.Itoa(d.Loc.EndColumn)+" "+x)
-						verifViolation("", "the definition range of a table member does not cover exactly the member's name")
+						verifViolation(c04quotedClass(x, name), "the definition range of a table member does not cover exactly the member's name")
 					}
 				}
 				for _, d := range p.FindReferences(file, &vs2, common.CRSReference) {
@@ -74,7 +76,7 @@ func VerifRun_C04d() {
 					}
 					if x, ok := c04text(src, d.Loc.StartLine, d.Loc.StartColumn, d.Loc.EndColumn); !ok || !chain[x] {
 						verifObserve("bad-reference", name+" -> "+strconv.Itoa(d.Loc.StartLine)+":"+strconv.Itoa(d.Loc.StartColumn)+"-"+strconv.Itoa(d.Loc.EndColumn)+" "+x)
-						verifViolation("", "a reference range of a table member does not cover exactly the member's name")
+						verifViolation(c04quotedClass(x, name), "a reference range of a table member does not cover exactly the member's name")
 					}
 				}
 			}
@@ -242,4 +244,13 @@ func VerifRun_C04f() {
 			}
 		}
 	}
+}
+
+
+// known defect: a member written as a bracketed string key (t["k"]) is located with its quotes
+func c04quotedClass(text, name string) string {
+	if text == "\""+name+"\"" || text == "'"+name+"'" {
+		return "C04-bracket-string-key"
+	}
+	return ""
 }
